@@ -9,6 +9,7 @@ from canopen.sdo.exceptions import SdoError
 from simcan import world
 from simcan.bus import Transport
 from simcan.core import MS, SEC, US
+from simcan.models.sdo_server import crc16_xmodem
 from simcan.util import call, site
 
 ID = "C13"
@@ -33,7 +34,7 @@ COMPONENTS = {
     "real": ["canopen.sdo.client.BlockUploadStream", "SdoClient.open/read_response/send_request/abort", "canopen.Network", "io.BufferedReader"],
     "stub": ["CAN backend (SimBus) with fault-injecting transport", "can.Notifier", "time/queue in canopen.sdo.client", "SDO server (RefSdoServer)"],
 }
-PROBES = ["undisturbed-ok", "multi-subblock", "retransmit-requested", "repaired", "crc-in-force", "sdo-error-after-fault"]
+PROBES = ["undisturbed-ok", "multi-subblock", "retransmit-requested", "repaired", "crc-in-force", "sdo-error-after-fault", "crc-is-zero"]
 
 LENS = (1, 6, 7, 8, 14, 15, 20, 21, 22, 50, 100, 882, 888, 889, 890, 895, 896, 897, 1779)
 CRCM = ((True, True), (True, False), (False, True), (False, False))     # (client requests, server supports)
@@ -164,6 +165,10 @@ def scenario(ctx):
         plan.end_mod = fault
     index, sub = 0x2000 + ctx.choice(0x100, "idx"), ctx.choice(256, "sub")
     value = world.pattern(length, 1 + ctx.choice(200, "salt"))
+    if length >= 3 and ctx.choice(8, "crc0") == 0:
+        # a value whose CRC-16 is 0x0000 (any data followed by its own checksum): a checksum of zero is a checksum
+        value = value[:-2] + crc16_xmodem(value[:-2]).to_bytes(2, "big")
+        ctx.probe("crc-is-zero")
     srv.store[(index, sub)] = value
     buffering = (1024, 0, 7, 64)[ctx.choice(4, "buffering")]
     plan.active = True
@@ -218,6 +223,12 @@ def scenario(ctx):
             # (scs=6, ss=1): protocol-indistinguishable (rule 3), not judged
             indist = True
             ctx.probe("indistinguishable-duplicate")
+    if exc is None and crc_on and fault in ("flip", "end-n") and bytes(res) != value and crc16_xmodem(bytes(res)) == crc16_xmodem(value):
+        # the corrupted data has the checksum of the original (e.g. a value whose CRC is 0x0000 followed by padding
+        # zeros): the checksum cannot tell them apart; only a size announced by the server can (rule 3 otherwise)
+        if not (srv.style.blk_size_indicated and len(res) != len(value)):
+            indist = True
+            ctx.observe("crc-collision-not-detectable")
     if exc is None:
         if bytes(res) != value and not indist:
             detect = "sequence-detectable" if fault in ("drop", "dup", "multi-drop") else "crc-detectable"
